@@ -137,6 +137,7 @@ inline void place(Case &c, const std::string &p, int viewpct) {
   c.set(p + ".slack", wpick<int>({{2, 0}, {2, rng(1, 63)}, {1, 1}, {1, 63}}));
   c.set(p + ".fill", wpick<int>({{6, 2}, {2, 1}, {1, 0}}));
   c.setu(p + ".fseed", seed());
+  if (coin(1, 4)) c.set(p + ".nest", 1);
 }
 
 // shapes that enter the block-recursive PLE (width * nrows > __M4RI_PLE_CUTOFF and ncols > 64) in configurations with a
